@@ -1884,7 +1884,13 @@ var c19Corpus = []string{
 	`{"type":"resource_link","uri":"file:///x","name":"n","size":12,"icons":[{"src":"https://e/x.png","sizes":["48x48"]}],"annotations":{"audience":["user"],"priority":1}}`,
 	"event: message\nid: s_12\ndata: {\"jsonrpc\":\"2.0\",\"id\":1,\"result\":{}}\n\n: comment\nretry: 100\ndata: a\ndata: b\n\n",
 	`{"name":"t","arguments":{"x":1},"_meta":{"progressToken":1,"io.modelcontextprotocol/protocolVersion":"2026-07-28"}}`,
+	`[]`, `[ ]`, `[[]]`, `[null]`, `[{}]`, `null`, `[[{"jsonrpc":"2.0","id":1,"method":"ping"}]]`,
+	`[{"jsonrpc":"2.0","id":1,"method":"ping"},{"jsonrpc":"2.0","id":1,"method":"ping"}]`,
 }
+
+var c19FrShapes = []string{"empty", "ws", "two-values", "null", "num", "str", "bool", "obj-empty", "obj-msg", "obj-notif", "obj-resp", "obj-bad",
+	"arr-empty", "arr-arr-empty", "arr-null", "arr-scalar", "arr-obj-empty", "arr-one", "arr-two", "arr-notifs", "arr-resp", "arr-dupid",
+	"arr-bad-last", "arr-bad-first", "arr-nested-msg", "deep", "truncated-arr", "truncated-obj"}
 
 func c19GenInput(r *rand.Rand, gen string) []byte {
 	switch gen {
@@ -1926,6 +1932,14 @@ func c19GenInput(r *rand.Rand, gen string) []byte {
 			}
 		}
 		return b
+	case "frames": // the structural edge classes of the frame table, with a line end or not, sometimes mutated
+		b := c19Frame(r, c19Pick(r, c19FrShapes...), c19Pick(r, "none", "inner", "lead", "trail"), "z", `"nobody"`, true)
+		b = append(b, c19Pick(r, "\n", "\r\n", "", "\n\n", "\n[]\n")...)
+		if r.IntN(4) == 0 && len(b) > 0 {
+			p := r.IntN(len(b))
+			b[p] = c19Pick(r, byte('['), ']', '{', '}', ',', ' ', 'n', '0')
+		}
+		return b
 	case "deep":
 		d := 1 << (4 + r.IntN(13)) // up to 65536 levels
 		open, cls := "[", "]"
@@ -1942,6 +1956,11 @@ func c19GenInput(r *rand.Rand, gen string) []byte {
 	}
 	panic("gen " + gen)
 }
+
+var (
+	c19FuzzOnce    sync.Once
+	c19FuzzHandler http.Handler
+)
 
 var c19Decoders = map[string]func([]byte) error{
 	"DecodeMessage": func(b []byte) error { _, err := jsonrpc.DecodeMessage(b); return err },
@@ -1976,6 +1995,23 @@ var c19Decoders = map[string]func([]byte) error{
 		})
 		return first
 	},
+	"servePOST": func(b []byte) error {
+		c19FuzzOnce.Do(func() {
+			server := NewServer(&Implementation{Name: "c19-fuzz", Version: "1"}, nil)
+			c19FuzzHandler = NewStreamableHTTPHandler(func(*http.Request) *Server { return server }, &StreamableHTTPOptions{Stateless: true, DisableLocalhostProtection: true})
+		})
+		rec := httptest.NewRecorder()
+		ctx, cancel := context.WithTimeout(context.Background(), 10*time.Second)
+		defer cancel()
+		req := httptest.NewRequest("POST", "http://c19.verif.test/mcp", bytes.NewReader(b)).WithContext(ctx)
+		req.Header.Set("Content-Type", "application/json")
+		req.Header.Set("Accept", "application/json, text/event-stream")
+		c19FuzzHandler.ServeHTTP(rec, req)
+		if rec.Code >= 300 {
+			return fmt.Errorf("status %d", rec.Code)
+		}
+		return nil
+	},
 	"unmarshalContent":    func(b []byte) error { _, err := c19UnmarshalContent(b); return err },
 	"CallToolResult":      func(b []byte) error { return internaljson.Unmarshal(b, &CallToolResult{}) },
 	"GetPromptResult":     func(b []byte) error { return internaljson.Unmarshal(b, &GetPromptResult{}) },
@@ -1990,7 +2026,7 @@ func c19Fuzz(r *rand.Rand, total int, emit func(any)) {
 		decs = append(decs, k)
 	}
 	sort.Strings(decs)
-	gens := []string{"random", "jsonish", "mutated", "deep"}
+	gens := []string{"random", "jsonish", "mutated", "frames", "deep"}
 	per := total / (len(decs) * len(gens))
 	if per < 1 {
 		per = 1
@@ -2494,13 +2530,14 @@ func c19Frame(r *rand.Rand, shape, pad, tag, respID string, nl bool) []byte {
 	switch pad {
 	case "inner":
 		b = c19PadInner(r, b, nl)
-	case "outer":
+	case "lead":
 		lead := c19Pick(r, " ", "\t", "  \t")
 		if nl {
 			lead = c19Pick(r, lead, "\n", "\r\n", " \n")
 		}
 		b = append([]byte(lead), b...)
-		b = append(b, c19Pick(r, "", " ", "\t")...)
+	case "trail":
+		b = append(b, c19Pick(r, " ", "\t", " \t ")...)
 	}
 	return b
 }
@@ -2678,15 +2715,16 @@ func c19FrIOClient(c c19FrCase, frame []byte, tag string) (out, note string) {
 	go func() { // the scripted peer
 		dec := json.NewDecoder(c2sR)
 		for {
+			var raw json.RawMessage
+			if err := dec.Decode(&raw); err != nil {
+				return
+			}
 			var req struct {
 				ID     json.RawMessage `json:"id"`
 				Method string          `json:"method"`
 			}
-			if err := dec.Decode(&req); err != nil {
-				return
-			}
-			if len(req.ID) == 0 || req.Method == "" {
-				continue
+			if json.Unmarshal(raw, &req) != nil || len(req.ID) == 0 || req.Method == "" {
+				continue // a response, a batch of responses, a notification
 			}
 			res := `{}`
 			if req.Method == "initialize" {
@@ -2737,13 +2775,20 @@ func c19FrIOClient(c c19FrCase, frame []byte, tag string) (out, note string) {
 	}
 	pctx, pcancel := context.WithTimeout(ctx, c19FrLimit)
 	defer pcancel()
-	if err := cs.Ping(pctx, nil); err != nil {
-		if pctx.Err() != nil {
-			return "hang", err.Error()
+	perr := make(chan error, 1)
+	go func() { perr <- cs.Ping(pctx, nil) }()
+	select {
+	case err := <-perr:
+		if err != nil {
+			if pctx.Err() != nil {
+				return "hang", err.Error()
+			}
+			return "error", err.Error()
 		}
-		return "error", err.Error()
+		return "value", ""
+	case <-time.After(c19FrLimit + time.Second): // a write into the pipe does not end with its context
+		return "hang", "ping did not return"
 	}
-	return "value", ""
 }
 
 // --- legacy SSE client: sseClientConn.Read called directly
@@ -2979,9 +3024,14 @@ func c19FrRecoverable(path string) bool {
 	return false
 }
 
-func c19RunFr(r *rand.Rand, c c19FrCase, tag string) (o c19FrOut, in, note string) {
-	nl := true // white space may contain line ends (a JSON text may span lines on every path)
-	mk := func(respID string) []byte { return c19Frame(r, c.Shape, c.Pad, tag, respID, nl) }
+func c19RunFr(r *rand.Rand, c c19FrCase, tag string, mark func(frame []byte)) (o c19FrOut, in, note string) {
+	// white space may contain line ends (a JSON text may span lines) except in the data of an SSE event
+	nl := c.Path != "sse.client.read" && c.Path != "http.client.sse"
+	mk := func(respID string) []byte {
+		f := c19Frame(r, c.Shape, c.Pad, tag, respID, nl)
+		mark(f)
+		return f
+	}
 	var frame []byte
 	if c.Path != "http.client.json" && c.Path != "http.client.sse" {
 		frame = mk(`"nobody-` + tag + `"`)
@@ -3308,12 +3358,14 @@ func TestVerif_C19(t *testing.T) {
 			for i, c := range frCases {
 				w.Flush()
 				wd.Flush()
-				b, _ := json.Marshal(frLine{"fr", c, c19FrOut{Out: "crash"}, rep})
-				if err := os.WriteFile(inflight, b, 0o644); err != nil {
-					t.Fatal(err)
+				mark := func(frame []byte) {
+					b, _ := json.Marshal(map[string]any{"k": "fr", "c": c, "o": c19FrOut{Out: "crash"}, "rep": rep, "frame": strconv.QuoteToASCII(c19Trunc(frame))})
+					if err := os.WriteFile(inflight, b, 0o644); err != nil {
+						t.Fatal(err)
+					}
 				}
 				r := rand.New(rand.NewPCG(seed, 7<<32|uint64(rep*len(frCases)+i)))
-				o, fin, note := c19RunFr(r, c, fmt.Sprintf("%d-%d", rep, i))
+				o, fin, note := c19RunFr(r, c, fmt.Sprintf("%d-%d", rep, i), mark)
 				emit(frLine{"fr", c, o, rep})
 				detail(fin, note)
 			}
